@@ -1,6 +1,6 @@
 PROP = {
     "level": "exploration",
-    "technique": "runtime monitor over a real three-node switch/link/channel cluster: wire monitor on every settle/fail the forwarder sends upstream (preimage learned downstream; outgoing HTLC gone from the forwarder's on-disk commitments), conservation/dangling oracle at quiescence, injected delays, single-link flaps, graceful cluster restarts and crash-consistent whole-cluster power losses (global cut through all databases behind a kvdb interposer, boot from the copies), hold invoices settled/cancelled at PRNG instants; race detector in the thorough tier",
+    "technique": "runtime monitor over a real three-node switch/link/channel cluster: wire monitor on every settle/fail the forwarder sends upstream (preimage learned downstream; outgoing HTLC gone from the forwarder's on-disk commitments), conservation/dangling oracle at quiescence, injected delays, single-link flaps, graceful cluster restarts and crash-consistent whole-cluster power losses (global cut through all databases behind a kvdb interposer, boot from the copies), hold invoices settled/cancelled at PRNG instants; a saturation phase (small HTLC-slot / in-flight-value limit on the forwarder's outgoing channel taken up by held payments) that makes the forwarder's outgoing LINK reject forwarded adds before the faults strike, with the sender retrying afterwards; race detector in the thorough tier",
     "level_text": ("Batches of 5-20 concurrent payments (A->B->C, C->B->A, direct; amounts around dust/min_htlc; valid, unknown hash, "
                    "underpaid, fee-too-low and CLTV-delta-too-small onions, hold invoices that the receiver settles or cancels later) run through three real Switches with real links, circuit "
                    "maps and channels; message delays, 0-3 flaps of one channel's links with the switches running (links removed, channel reloaded on both "
@@ -11,18 +11,30 @@ PROP = {
                    "with no write transaction open (by the clock, or right behind the k-th commit - of any kind or of a PRNG-chosen kind - of a PRNG-chosen store with the committing handler frozen) "
                    "copies all of them, the cluster runs on for a PRNG time and is then thrown away, and a new cluster with new invoice registries boots "
                    "from the copies (monitor tables and preimage caches rolled back to the cut, every result re-queried by attempt id, hold decisions re-issued, "
-                   "a third of the payments launched only after the boots); the case is judged once, at its end. Monitors: (1) every update_fulfill Bob sends upstream "
+                   "a third of the payments launched only after the boots); the case is judged once, at its end. In a quarter of the cases (PRNG, independent of the fault plan) a "
+               "saturation phase runs first: the channel that is Bob's outgoing channel for one direction (A->C or C->A) has a small limit (3-8 accepted HTLCs, or an "
+               "in-flight value that 2-5 held payments exhaust; set on the channel state on both ends and re-applied on every reload), hold-invoice payments through Bob "
+               "take it up, then a burst of 2-6 further forwards passes Bob's switch (policy, expiry, bandwidth all fine) and is refused by his outgoing link "
+               "(lnwallet rejects the add; the link's mailbox fails it back - counted as link_level_add_rejects through the switch's channel-update callback, which, a circuit-map write-error fallback aside, only "
+               "that path uses), the receiver settles/cancels what it holds (limit free again; three times in four the network is quiescent before going on), then the "
+               "ordinary payments and the fault plan run - which in such a case always contains a restart of Bob's incoming link of that direction (flap / held down of that channel, "
+               "cluster restart or power loss) - and after the faults the sender pays two thirds of the rejected invoices again with new attempt ids plus 1-4 new "
+               "payments; a payment is judged by the outcome over all its attempts. Monitors: (1) every update_fulfill Bob sends upstream "
                    "must follow an update_fulfill with that preimage on the outgoing channel; every update_fail upstream must find the "
                    "outgoing HTLC in none of Bob's on-disk commitments (fresh FetchChannel); at most one resolution kind per incoming "
-                   "HTLC and at most one per connection; (2) at quiescence (observable state stable) no HTLC/circuit is left, every "
+                   "HTLC and at most one per connection; every update_add Bob sends on the outgoing channel of a forwarded payment whose incoming HTLC he already resolved upstream on an "
+               "earlier connection, with no newer incoming add for that hash, must still find that incoming HTLC in one of Bob's on-disk upstream commitments "
+               "(outgoing_add_without_live_incoming: a legitimate replay of a still pending add passes, an add offered after the incoming HTLC is irrevocably gone does not); (2) at quiescence (observable state stable) no HTLC/circuit is left, every "
                    "payment has a terminal result consistent with the receiver's invoice, and all four channel-end balances equal the "
                    "start plus exactly the settled payments and fees; (3) thorough: the same under the Go race detector."),
     "level_note": ("3-node line topology with the fixture's mock onion iterator; hodl-mask dev flags not used (hold invoices are real hold invoices of the invoice registry); 'no HTLC left dangling' is "
                    "idle-but-dirty detection (never idle => inconclusive); goroutine schedules are the runtime's, not enumerated; held on "
-                   "the cases counted in evidence."),
+                   "the cases counted in evidence. Link-level rejection is produced by exhausted HTLC slots / in-flight value only (not by concurrent adds exceeding the balance, fee exposure, "
+               "a flushing link or expiry in the mailbox); the small limits are written into the fixture's channel state objects (createTestChannel hard-codes 50 HTLCs / the capacity), "
+               "not negotiated; outgoing_add_without_live_incoming deliberately stays silent when a newer incoming add for the same hash (a retry) has arrived - the balance oracles judge those."),
     "design_ref": "DESIGN.md §3 C08",
-    "rule": ("case = (5-20 PRNG payments in 1-3 waves incl. hold invoices, delay profile, 0-3 link flaps, 0-2 cluster restarts and 0 or 2-5 consecutive power losses at PRNG instants); non-trivial = at least "
-             "one payment settled; distinct = (restarts, flaps, power loss none/idle/mid-activity, number of distinct (direction,kind,outcome) classes, settled count bucket, delay profile)"),
+    "rule": ("case = (5-20 PRNG payments in 1-3 waves incl. hold invoices, delay profile, 0-3 link flaps, 0-2 cluster restarts and 0 or 2-5 consecutive power losses at PRNG instants, in a quarter of the cases preceded by a saturation phase (limit kind, direction, fillers, burst) and followed by retries); non-trivial = at least "
+             "one payment settled; distinct = (restarts, flaps, power loss none/idle/mid-activity, number of distinct (direction,kind,outcome) classes, settled count bucket, delay profile, saturation none/direction+limit kind)"),
     "race_anchors": ["htlcswitch/link.go", "htlcswitch/switch.go", "htlcswitch/circuit_map.go", "htlcswitch/mailbox.go",
                      "htlcswitch/payment_result.go", "channeldb/forwarding_package.go", "lnwallet/channel.go"],
     "assumptions": ["cluster restart = simultaneous stop of all three nodes after which every node reloads from its databases",
@@ -36,7 +48,10 @@ PROP = {
         "gomaxprocs": 4,
         "watchdog": {"quick": 1200, "thorough": 7200},
         "floors": {"quick": {"oracle_quiescence": 20, "oracle_upstream_resolution": 100, "nontrivial": 20,
-                             "powerloss_cases": 6, "powerloss_cuts": 18, "powerloss_cut_during_activity": 12},
-                   "thorough": {"oracle_quiescence": 400, "powerloss_cases": 80, "powerloss_cuts": 250, "powerloss_cut_during_activity": 150}},
+                             "powerloss_cases": 6, "powerloss_cuts": 18, "powerloss_cut_during_activity": 12,
+                             "sat_cases": 7, "sat_burst_rejected": 25, "link_level_add_rejects": 50,
+                             "oracle_outgoing_add_has_live_incoming": 200},
+                   "thorough": {"oracle_quiescence": 400, "powerloss_cases": 80, "powerloss_cuts": 250, "powerloss_cut_during_activity": 150,
+                                "sat_cases": 90, "sat_burst_rejected": 300, "link_level_add_rejects": 600}},
     }],
 }
